@@ -93,11 +93,29 @@ func helperWithInvoke(p *Prog, T *types.Named, name string) []*ssa.Function {
 		found := false
 		eachInstr(f, func(i ssa.Instruction) {
 			c, ok := i.(*ssa.Call)
-			if !ok || !c.Call.IsInvoke() || c.Call.Method.Name() != name {
+			if !ok {
 				return
 			}
-			if _, _, _, ok := loadOfField(c.Call.Value); ok {
-				found = true
+			if c.Call.IsInvoke() && c.Call.Method.Name() == name {
+				if _, _, _, ok := loadOfField(c.Call.Value); ok {
+					found = true
+				}
+			}
+			// the same through the standard helpers (io.ReadFull(this.is, buf), io.ReadAtLeast, io.Copy ...)
+			if o := calleeObj(&c.Call); o != nil && o.Pkg() != nil && o.Pkg().Path() == "io" && !c.Call.IsInvoke() {
+				for _, a := range c.Call.Args {
+					if _, _, _, ok := loadOfField(stripConv(a)); ok {
+						if mi, isMI := a.(*ssa.ChangeInterface); isMI {
+							_ = mi
+						}
+						found = true
+					}
+					if ci, ok := a.(*ssa.ChangeInterface); ok {
+						if _, _, _, ok := loadOfField(ci.X); ok {
+							found = true
+						}
+					}
+				}
 			}
 		})
 		if found {
